@@ -13,6 +13,12 @@ Executed on real SQLite (spy engine, file database, independent raw read-back):
            omitted; 1-2 clauses per statement (2.1 multi-clause); set_ keyed by name or
            Column with literals, ``excluded.x``, ``t.x + 1``, ``t.v || '|' || excluded.v``,
            ``t.n + excluded.n`` and per-row ``bindparam()`` values; optional ``where=``.
+  families every statement is, with probability 1/2, a same-shaped *sibling* of the previous one
+           on the same table and engine (shared compiled cache): identical form, targets and
+           actions, differing in exactly one WHERE literal, WHERE expression, SET literal or SET
+           expression of one DO UPDATE clause.
+  x column a column whose type has a SQL-level ``bind_expression`` (every bound value is wrapped
+           ``x[..]``), assignable in SET from a literal, ``excluded.x`` or a per-row bindparam.
   rows     existing rows + parameter sets that are fresh, conflict with an existing row on
            exactly one uniqueness rule, or conflict with an *earlier row of the same
            statement* (mutual conflicts); occasionally a conflict no clause covers
@@ -52,11 +58,11 @@ META = {
     "exhaustive": {"quick": False, "thorough": False},
     "require": ["rows_conflicted", "rows_updated", "rows_skipped", "rows_inserted", "returning_rows_checked",
                 "mutual_conflicts", "batches_permuted", "fake_set_values_checked", "orm_objects_checked",
-                "uncovered_conflicts_raised", "bound_set_rows"],
+                "uncovered_conflicts_raised", "bound_set_rows", "family_siblings"],
     "assumptions": ["reference model of SQLite UPSERT semantics for single-rule conflicts (calibrated: silent on the unchanged tree)"],
 }
 
-COLS = ("id", "k", "a", "b", "e", "flag", "s", "v", "n", "w", "ou")
+COLS = ("id", "k", "a", "b", "e", "flag", "s", "v", "n", "w", "ou", "x")
 RULES = ("k", "ab", "e", "ls")
 
 
@@ -113,52 +119,103 @@ class Model:
 
 
 # ---------------------------------------------------------------- menus (SQL expr, python twin)
-def set_menu(sa, rng, uniq):
-    """choose 1-3 SET assignments.  Returns (builder(t, ex) -> set_ dict, python twins, names, bind names)"""
-    lit = f"L{uniq}"
-    options = {
-        "v": [
-            ("lit", lambda t, ex: lit, lambda e, p: lit),
-            ("exc", lambda t, ex: ex.v, lambda e, p: p["v"]),
-            ("cat", lambda t, ex: t.c.v + "|" + ex.v, lambda e, p: e["v"] + "|" + p["v"]),
-            ("bind", lambda t, ex: sa.bindparam("bp_v"), lambda e, p: p["bp_v"]),
-        ],
-        "n": [
-            ("inc", lambda t, ex: t.c.n + 1, lambda e, p: e["n"] + 1),
-            ("sum", lambda t, ex: t.c.n + ex.n, lambda e, p: e["n"] + p["n"]),
-            ("exc", lambda t, ex: ex.n, lambda e, p: p["n"]),
-            ("lit", lambda t, ex: 42, lambda e, p: 42),
-            ("bind", lambda t, ex: sa.bindparam("bp_n"), lambda e, p: p["bp_n"]),
-        ],
-        "w": [
-            ("exc", lambda t, ex: ex.w, lambda e, p: p["w"]),
-            ("lit", lambda t, ex: "WL", lambda e, p: "WL"),
-            ("tbl", lambda t, ex: t.c.v, lambda e, p: e["v"]),
-        ],
-    }
-    cols = rng.sample(["v", "n", "w"], rng.randint(1, 3))
-    by_column = rng.random() < 0.4
-    chosen = [(c,) + rng.choice(options[c]) for c in cols]
+SET_OPTIONS = {
+    # name -> (builder(sa, t, ex, L), python twin(e, p, L), literal kind or None)
+    "v": {
+        "lit": (lambda sa, t, ex, L: L, lambda e, p, L: L, "str"),
+        "exc": (lambda sa, t, ex, L: ex.v, lambda e, p, L: p["v"], None),
+        "cat": (lambda sa, t, ex, L: t.c.v + L + ex.v, lambda e, p, L: e["v"] + L + p["v"], "sep"),
+        "bind": (lambda sa, t, ex, L: sa.bindparam("bp_v"), lambda e, p, L: p["bp_v"], None),
+    },
+    "n": {
+        "inc": (lambda sa, t, ex, L: t.c.n + L, lambda e, p, L: e["n"] + L, "int"),
+        "sum": (lambda sa, t, ex, L: t.c.n + ex.n, lambda e, p, L: e["n"] + p["n"], None),
+        "exc": (lambda sa, t, ex, L: ex.n, lambda e, p, L: p["n"], None),
+        "lit": (lambda sa, t, ex, L: L, lambda e, p, L: L, "int"),
+        "bind": (lambda sa, t, ex, L: sa.bindparam("bp_n"), lambda e, p, L: p["bp_n"], None),
+    },
+    "w": {
+        "exc": (lambda sa, t, ex, L: ex.w, lambda e, p, L: p["w"], None),
+        "lit": (lambda sa, t, ex, L: L, lambda e, p, L: L, "str"),
+        "tbl": (lambda sa, t, ex, L: t.c.v, lambda e, p, L: e["v"], None),
+    },
+    # x: the column type wraps every *bound* value in x[..] (bind_expression); column
+    # references (excluded.x) are not wrapped again
+    "x": {
+        "lit": (lambda sa, t, ex, L: L, lambda e, p, L: f"x[{L}]", "str"),
+        "exc": (lambda sa, t, ex, L: ex.x, lambda e, p, L: p["x"], None),
+        "bind": (lambda sa, t, ex, L: sa.bindparam("bp_x"), lambda e, p, L: f"x[{p['bp_x']}]", None),
+    },
+}
+WHERE_OPTIONS = {
+    "none": (None, None, None),
+    "n_lt": (lambda sa, t, ex, K: t.c.n < K, lambda e, p, K: e["n"] < K, "int"),
+    "exc_n_gt": (lambda sa, t, ex, K: ex.n + K > t.c.n, lambda e, p, K: p["n"] + K > e["n"], "int"),
+    "w_is": (lambda sa, t, ex, K: t.c.w == K, lambda e, p, K: e["w"] == K, "w"),
+    "w_isnt": (lambda sa, t, ex, K: t.c.w != K, lambda e, p, K: e["w"] != K, "w"),
+    "and": (lambda sa, t, ex, K: sa.and_(t.c.n < K, ex.v != t.c.v), lambda e, p, K: e["n"] < K and p["v"] != e["v"], "int"),
+}
 
-    def build(t, ex):
-        return {(t.c[c] if by_column else c): mk(t, ex) for c, _, mk, _ in chosen}
 
-    py = {c: fn for c, _, _, fn in chosen}
-    desc = {c: name for c, name, _, _ in chosen}
-    binds = ["bp_" + c for c, name, _, _ in chosen if name == "bind"]
-    return build, py, desc, binds
+def draw_literal(rng, kind, not_equal=None):
+    v = None
+    for _ in range(20):
+        if kind == "str":
+            v = "L" + str(rng.randint(0, 10 ** 6))
+        elif kind == "sep":
+            v = rng.choice(["|", "+", "::", "~"])
+        elif kind == "int":
+            v = rng.randint(0, 6)
+        elif kind == "w":
+            v = rng.choice(["w0", "wx", "WL"])
+        else:
+            return None
+        if v != not_equal:
+            return v
+    return v
 
 
-def where_menu(sa, rng):
-    opts = [
-        ("none", None, None),
-        ("none", None, None),
-        ("n_lt_2", lambda t, ex: t.c.n < 2, lambda e, p: e["n"] < 2),
-        ("exc_n_gt", lambda t, ex: ex.n > t.c.n, lambda e, p: p["n"] > e["n"]),
-        ("w_is_w0", lambda t, ex: t.c.w == "w0", lambda e, p: e["w"] == "w0"),
-        ("and", lambda t, ex: sa.and_(t.c.n < 50, ex.v != t.c.v), lambda e, p: e["n"] < 50 and p["v"] != e["v"]),
-    ]
-    return rng.choice(opts)
+def set_spec(rng):
+    """{'cols': [[col, option, literal]...], 'by_column': bool}"""
+    cols = rng.sample(["v", "n", "w", "x"], rng.randint(1, 3))
+    out = []
+    for c in cols:
+        name = rng.choice(sorted(SET_OPTIONS[c]))
+        out.append([c, name, draw_literal(rng, SET_OPTIONS[c][name][2])])
+    return {"cols": out, "by_column": rng.random() < 0.4}
+
+
+def where_spec(rng):
+    name = rng.choice(["none", "none"] + sorted(k for k in WHERE_OPTIONS if k != "none"))
+    return [name, draw_literal(rng, WHERE_OPTIONS[name][2])]
+
+
+def vary_clause(rng, cl):
+    """a same-shaped sibling of a DO UPDATE clause spec: exactly one of the WHERE literal, the
+    WHERE expression, a SET literal or a SET expression differs"""
+    import copy
+
+    tk = cl["tk"]
+    cl = copy.deepcopy({k: v for k, v in cl.items() if k != "tk"})
+    cl["tk"] = tk
+    how = rng.choice(["where_literal", "where_literal", "where_expr", "set_literal", "set_expr"])
+    w = cl["where"]
+    lits = [c for c in cl["set"]["cols"] if SET_OPTIONS[c[0]][c[1]][2]]
+    if how == "where_literal" and w[0] != "none":
+        w[1] = draw_literal(rng, WHERE_OPTIONS[w[0]][2], not_equal=w[1])
+    elif how == "set_literal" and lits:
+        c = rng.choice(lits)
+        c[2] = draw_literal(rng, SET_OPTIONS[c[0]][c[1]][2], not_equal=c[2])
+    elif how == "set_expr":
+        c = rng.choice(cl["set"]["cols"])
+        c[1] = rng.choice(sorted(k for k in SET_OPTIONS[c[0]] if k != c[1]))
+        c[2] = draw_literal(rng, SET_OPTIONS[c[0]][c[1]][2])
+    else:
+        how = "where_expr"
+        name = rng.choice(sorted(k for k in WHERE_OPTIONS if k != w[0]))
+        cl["where"] = [name, draw_literal(rng, WHERE_OPTIONS[name][2])]
+    cl["varied"] = how
+    return cl
 
 
 def target_for(sa, t, rule, rng, many):
@@ -183,7 +240,20 @@ def target_for(sa, t, rule, rng, many):
     raise AssertionError(rule)
 
 
-def build_table(sa, md, name, with_sentinel):
+def make_xtype(sa):
+    from sqlalchemy.types import TypeDecorator
+
+    class XWrap(TypeDecorator):
+        impl = sa.String
+        cache_ok = True
+
+        def bind_expression(self, bindvalue):
+            return sa.func.printf("x[%s]", bindvalue, type_=self)
+
+    return XWrap
+
+
+def build_table(sa, md, name, with_sentinel, xtype):
     from sqlalchemy import insert_sentinel
 
     extra = [insert_sentinel("sent")] if with_sentinel else []
@@ -197,6 +267,7 @@ def build_table(sa, md, name, with_sentinel):
         sa.Column("v", sa.String), sa.Column("n", sa.Integer, default=0),
         sa.Column("w", sa.String, server_default="w0"),
         sa.Column("ou", sa.String, onupdate="OU"),
+        sa.Column("x", xtype()),     # a type with a SQL-level bind_expression: every bound value is wrapped x[..]
         *extra,
         sa.UniqueConstraint("a", "b"),
         sa.Index(f"ix_e_{name}", "e", unique=True, sqlite_where=sa.text("flag = 1")),
@@ -230,6 +301,7 @@ def run(ctx):
     # a first slice of part B runs up front: a loaded machine cannot starve its counter
     fake_part(ctx, sa, first=True)
     nschemas = ctx.pick({"quick": 50, "thorough": 1400})
+    xtype = make_xtype(sa)
     spy = Spy()
     spy.enabled = False
     perm = Permuter(rng.random())
@@ -245,7 +317,7 @@ def run(ctx):
                 break
             ps = styles[k % len(styles)]
             md = sa.MetaData()
-            t = build_table(sa, md, f"u{ctx.shard}_{k}", with_sentinel=k % 2 == 1)
+            t = build_table(sa, md, f"u{ctx.shard}_{k}", with_sentinel=k % 2 == 1, xtype=xtype)
             md.create_all(engines[ps])
             reg = orm.registry()
             cls = type("U", (object,), {})
@@ -274,7 +346,15 @@ def drive(ctx, sa, orm, sqlite_dialect, rng, eng, path, t, cls, perm, ps, k):
     def fresh_row():
         u = fresh()
         return {"k": 1000 + u, "a": u % 3, "b": f"b{u}", "e": f"e{u}", "flag": rng.choice([1, 1, 0]),
-                "s": f"S{u}x", "v": f"v{ctx.shard}.{k}.{u}", "n": rng.randint(0, 4)}
+                "s": f"S{u}x", "v": f"v{ctx.shard}.{k}.{u}", "n": rng.randint(0, 4), "x": f"xv{u}"}
+
+    def to_prop(r):
+        """the row SQLite will see as ``excluded``: defaults applied, bound x value wrapped"""
+        prop = dict(r, ou=None, id=None)
+        prop.setdefault("w", "w0")
+        prop.setdefault("n", 0)
+        prop["x"] = f"x[{r['x']}]"
+        return prop
 
     # ---- existing rows (plain inserts through the raw driver, outside the code under test)
     import sqlite3
@@ -290,36 +370,68 @@ def drive(ctx, sa, orm, sqlite_dialect, rng, eng, path, t, cls, perm, ps, k):
     raw.commit()
     raw.close()
 
-    nstmt = rng.randint(3, 6)
+    nstmt = rng.randint(3, 7)
+    prev_spec = None
+    this_clauses = None
     for si in range(nstmt):
-        form = rng.choice(["single_params", "single_values", "many_plain", "many_ret", "many_ret", "many_ret_sorted",
-                           "many_ret_sorted", "multivalues", "orm_bulk"])
+        # ---- statement family: with probability 1/2 the statement is a same-shaped sibling of the
+        # previous one on this table/engine (same form, targets, actions) that differs in exactly
+        # one literal or one expression of one DO UPDATE clause - the compiled cache is shared
+        family = prev_spec is not None and rng.random() < 0.5 and any(c["action"] == "update" for c in prev_spec["clauses"])
+        if family:
+            form = prev_spec["form"]
+            spec_clauses = [dict(c) for c in prev_spec["clauses"]]
+            ix = rng.choice([i for i, c in enumerate(spec_clauses) if c["action"] == "update"])
+            spec_clauses[ix] = vary_clause(rng, spec_clauses[ix])
+            ctx.count("family_siblings")
+        else:
+            form = rng.choice(["single_params", "single_values", "many_plain", "many_ret", "many_ret", "many_ret_sorted",
+                               "many_ret_sorted", "multivalues", "orm_bulk"])
+            many = form in ("many_plain", "many_ret", "many_ret_sorted", "orm_bulk")
+            nclauses = 1 if rng.random() < 0.7 else 2
+            rules = rng.sample(RULES, nclauses)
+            spec_clauses = []
+            for ci, rule in enumerate(rules):
+                last = ci == nclauses - 1
+                eff_rule = None if (last and rng.random() < 0.15) else rule
+                cl = {"rule": eff_rule, "action": "nothing" if rng.random() < 0.3 else "update",
+                      "tk": target_for(sa, t, eff_rule, rng, many)}
+                if cl["action"] == "update":
+                    cl["set"] = set_spec(rng)
+                    cl["where"] = where_spec(rng)
+                spec_clauses.append(cl)
         many = form in ("many_plain", "many_ret", "many_ret_sorted", "orm_bulk")
-        # ---- clauses
-        nclauses = 1 if rng.random() < 0.7 else 2
-        rules = rng.sample(RULES, nclauses)
         clauses = []
         cdesc = []
         all_binds = []
         appliers = []
-        for ci, rule in enumerate(rules):
-            last = ci == nclauses - 1
-            eff_rule = None if (last and rng.random() < 0.15) else rule
-            action = "nothing" if rng.random() < 0.3 else "update"
-            tk = target_for(sa, t, eff_rule, rng, many)
-            if action == "nothing":
+        for cl in spec_clauses:
+            tk = cl["tk"]
+            if cl["action"] == "nothing":
                 appliers.append(lambda st, tk=tk: st.on_conflict_do_nothing(**tk))
-                clauses.append({"rule": eff_rule, "action": "nothing"})
-                cdesc.append({"rule": eff_rule, "action": "nothing"})
-            else:
-                sbuild, set_py, sdesc, binds = set_menu(sa, rng, f"{k}.{si}.{ci}")
-                wname, wbuild, wpy = where_menu(sa, rng)
-                appliers.append(lambda st, tk=tk, sbuild=sbuild, wbuild=wbuild: st.on_conflict_do_update(
-                    set_=sbuild(t, st.excluded), where=wbuild(t, st.excluded) if wbuild else None, **tk))
-                clauses.append({"rule": eff_rule, "action": "update", "set_py": set_py, "where_py": wpy})
-                cdesc.append({"rule": eff_rule, "action": "update", "set": sdesc, "where": wname,
-                              "target": "columns" if any(not isinstance(x, str) for x in tk.get("index_elements", [])) else "names"})
-                all_binds += binds
+                clauses.append({"rule": cl["rule"], "action": "nothing"})
+                cdesc.append({"rule": cl["rule"], "action": "nothing"})
+                continue
+            sspec, (wname, wK) = cl["set"], cl["where"]
+
+            def sbuild(t_, ex, sspec=sspec):
+                return {(t_.c[c] if sspec["by_column"] else c): SET_OPTIONS[c][nm][0](sa, t_, ex, L) for c, nm, L in sspec["cols"]}
+
+            set_py = {c: (lambda e, p, c=c, nm=nm, L=L: SET_OPTIONS[c][nm][1](e, p, L)) for c, nm, L in sspec["cols"]}
+            wmk, wfn, _ = WHERE_OPTIONS[wname]
+            wbuild = (lambda t_, ex, wmk=wmk, wK=wK: wmk(sa, t_, ex, wK)) if wmk else None
+            wpy = (lambda e, p, wfn=wfn, wK=wK: wfn(e, p, wK)) if wfn else None
+            appliers.append(lambda st, tk=tk, sbuild=sbuild, wbuild=wbuild: st.on_conflict_do_update(
+                set_=sbuild(t, st.excluded), where=wbuild(t, st.excluded) if wbuild else None, **tk))
+            clauses.append({"rule": cl["rule"], "action": "update", "set_py": set_py, "where_py": wpy})
+            cdesc.append({"rule": cl["rule"], "action": "update", "set": [list(c) for c in sspec["cols"]], "where": [wname, wK],
+                          "varied": cl.get("varied"),
+                          "target": "columns" if any(not isinstance(x, str) for x in tk.get("index_elements", [])) else "names"})
+            all_binds += ["bp_" + c for c, nm, L in sspec["cols"] if nm == "bind"]
+        if form == "orm_bulk" and all_binds:
+            form = "many_ret"   # extra (non-attribute) keys cannot travel through an ORM bulk insert
+        prev_clauses, this_clauses = (this_clauses if si else None), clauses
+        prev_spec = {"form": form, "clauses": spec_clauses}
 
         def with_clauses(st):
             for ap in appliers:
@@ -329,8 +441,6 @@ def drive(ctx, sa, orm, sqlite_dialect, rng, eng, path, t, cls, perm, ps, k):
         stmt = with_clauses(sqlite_dialect.insert(t))
         covered = {c["rule"] for c in clauses}
         # ---- rows
-        if form == "orm_bulk" and all_binds:
-            form = "many_ret"   # extra (non-attribute) keys cannot travel through an ORM bulk insert
         nrows = 1 if form.startswith("single") else rng.randint(2, 7)
         want_uncovered = None not in covered and rng.random() < 0.08
         include_w = rng.random() < 0.4
@@ -371,13 +481,9 @@ def drive(ctx, sa, orm, sqlite_dialect, rng, eng, path, t, cls, perm, ps, k):
             else:
                 pattern = "fresh"
             for b in all_binds:
-                r[b] = f"B{fresh()}" if b == "bp_v" else 500 + fresh()
+                r[b] = 500 + fresh() if b == "bp_n" else f"B{fresh()}"
             # evaluate on the shadow model so later rows can conflict with this one
-            prop = dict(r)
-            prop.setdefault("w", "w0")
-            prop.setdefault("n", 0)
-            prop["ou"] = None
-            prop["id"] = None
+            prop = to_prop(r)
             try:
                 outcome, snap = shadow.upsert(prop, clauses)
             except AssertionError:
@@ -388,10 +494,8 @@ def drive(ctx, sa, orm, sqlite_dialect, rng, eng, path, t, cls, perm, ps, k):
                 if not include_n:
                     del r["n"]
                 for b in all_binds:
-                    r[b] = f"B{fresh()}" if b == "bp_v" else 500 + fresh()
-                prop = dict(r, ou=None, id=None)
-                prop.setdefault("w", "w0")
-                prop.setdefault("n", 0)
+                    r[b] = 500 + fresh() if b == "bp_n" else f"B{fresh()}"
+                prop = to_prop(r)
                 outcome, snap = shadow.upsert(prop, clauses)
                 pattern = "fresh"
             props.append(r)
@@ -409,10 +513,7 @@ def drive(ctx, sa, orm, sqlite_dialect, rng, eng, path, t, cls, perm, ps, k):
         trial = Model()
         trial.rows = {i: dict(r) for i, r in model.rows.items()}
         for r in props:
-            prop = dict(r, ou=None, id=None)
-            prop.setdefault("w", "w0")
-            prop.setdefault("n", 0)
-            outcomes.append(trial.upsert(prop, clauses))
+            outcomes.append(trial.upsert(to_prop(r), clauses))
 
         # ---- execute
         perm.reset_case()
@@ -455,10 +556,7 @@ def drive(ctx, sa, orm, sqlite_dialect, rng, eng, path, t, cls, perm, ps, k):
                             trial = Model()
                             trial.rows = {i: dict(r) for i, r in model.rows.items()}
                             for r in props:
-                                prop = dict(r, ou=None, id=None)
-                                prop.setdefault("w", "w0")
-                                prop.setdefault("n", 0)
-                                outcomes.append(trial.upsert(prop, clauses))
+                                outcomes.append(trial.upsert(to_prop(r), clauses))
                             res = c.execute(stmt.values(vals).returning(t), bp)
                         else:
                             res = c.execute(stmt.values(props).returning(t))
@@ -489,6 +587,7 @@ def drive(ctx, sa, orm, sqlite_dialect, rng, eng, path, t, cls, perm, ps, k):
             return
 
         # ---- table state == model state
+        before = {i: dict(r) for i, r in model.rows.items()}
         model.rows = trial.rows
         want = {i: {c: r[c] for c in COLS} for i, r in model.rows.items()}
         if stored != want:
@@ -497,6 +596,17 @@ def drive(ctx, sa, orm, sqlite_dialect, rng, eng, path, t, cls, perm, ps, k):
                 if stored.get(i) != want.get(i):
                     diff.append({"id": i, "stored": stored.get(i), "model": want.get(i)})
             mech = classify(diff, props, all_binds, outcomes)
+            if family and prev_clauses is not None:
+                # does the table look as if the *previous sibling's* clauses had been executed?
+                alt = Model()
+                alt.rows = {i: dict(r) for i, r in before.items()}
+                try:
+                    for r in props:
+                        alt.upsert(to_prop(r), prev_clauses)
+                    if {i: {c: r[c] for c in COLS} for i, r in alt.rows.items()} == stored:
+                        mech = "sibling-statement-ran-with-previous-statements-clause"
+                except (AssertionError, KeyError):
+                    pass
             ctx.violation(mech, f"{desc}: table differs from the insert-or-update model: {diff[:3]}",
                           {"desc": desc, "diff": diff[:6], "rows": props[:8]})
             return
@@ -561,8 +671,11 @@ def classify(diff, props, binds, outcomes):
     if d["id"] not in touched:
         return "row-changed-although-clause-says-skip"
     bound_values = {r[b] for r in props for b in binds if b in r}
+    bound_values |= {f"x[{v}]" for v in list(bound_values)}
     if any(d["stored"][c] in bound_values for c in cols if c in ("v", "n")):
         return "bound-set-value-from-wrong-row"
+    if "x" in cols and d["stored"]["x"] in bound_values:
+        return "bound-set-value-from-wrong-row-through-bind-expression-type"
     if cols == ["ou"]:
         return "onupdate-ran-for-on-conflict"
     return "updated-row-differs-from-model"
